@@ -78,6 +78,11 @@ func (c43Engine) Generate(seed uint64, tier string) *simrun.Case {
 	c.Knobs["dsndb"] = int64(r.Intn(2)) // 1: the database-backed DSN service (with its DSN cache), 0: the file service held in memory
 	n := 10 + r.Intn(25)
 	for i := 0; i < n; i++ {
+		if r.Chance(1, 25) {
+			// a REST transaction begun on a restricted DSN and then used through the URL of the unrestricted DSN
+			c.Ops = append(c.Ops, simrun.Op{K: "txcross", A: []int64{int64(1 + r.Intn(2)), []int64{0, 2, 3}[r.Intn(3)], int64(r.Intn(2)), int64(r.Intn(2))}})
+			continue
+		}
 		if r.Chance(1, 40) {
 			// the first DSN-level grant on the unrestricted DSN makes it a restricted one from then on
 			c.Ops = append(c.Ops, simrun.Op{K: "restrict"})
@@ -431,6 +436,42 @@ func (c43Engine) Execute(t *testing.T, c *simrun.Case, keepLog bool) *simrun.Out
 						out.Probe("tables_recreated", 1)
 					} else {
 						fail("create-refused", "op %d: the administrator's table create was answered %d: %.200s", i, st, resp)
+					}
+				case "txcross":
+					// Begin a transaction on restricted DSN d, then send a row request that NAMES the unrestricted DSN in
+					// its URL but carries that transaction's id; finally the administrator commits. Whatever happens, the
+					// table of the restricted DSN may change only if the user holds the matching grant THERE.
+					if duRestricted || !exists[d+"."+tb] || !exists["du."+tb] {
+						break
+					}
+					st, body := do(u, "GET", "/dsns/"+d+"/begin", "")
+					var tr struct {
+						ID string `json:"id"`
+					}
+					json.Unmarshal([]byte(body), &tr)
+					if st != http.StatusOK || tr.ID == "" {
+						hist = append(hist, fmt.Sprintf("begin by %s on %s -> %d", u, d, st))
+						break
+					}
+					before := c43Dump(paths[d], tb)
+					need, verb := "delete", "DELETE"
+					var st2 int
+					if op.Arg(3) == 1 {
+						need, verb = "update", "PATCH"
+						st2, _ = do(u, verb, "/dsns/du/tables/"+tb+"/rows?transaction="+tr.ID+"&filter=EQ(id,1)", `{"name": "crossed"}`)
+					} else {
+						st2, _ = do(u, verb, "/dsns/du/tables/"+tb+"/rows?transaction="+tr.ID+"&filter=EQ(id,2)", "")
+					}
+					st3, _ := do("admin", "GET", "/dsns/"+d+"/commit?transaction="+tr.ID, "")
+					if st3 < 200 || st3 > 299 {
+						do("admin", "GET", "/dsns/"+d+"/rollback?transaction="+tr.ID, "")
+					}
+					after := c43Dump(paths[d], tb)
+					hist = append(hist, fmt.Sprintf("%s by %s on /dsns/du/tables/%s/rows with the id of a transaction begun on %s -> %d (commit %d)", verb, u, tb, d, st2, st3))
+					out.Probe("cross_dsn_transaction_requests", 1)
+					g := grants[k]
+					if !(g != nil && (g[need] || g["admin"])) && after != before {
+						fail("changed-without-grant", "op %d: %s by %s named the unrestricted DSN du in its URL but carried the id of a transaction begun on the restricted DSN %s; table %s.%s changed from %s to %s although the permission store records %v for that user, DSN and table", i, verb, u, d, d, tb, before, after, g)
 					}
 				case "restrict":
 					if !duRestricted {
